@@ -33,6 +33,7 @@ def register(w):
         "generic_requires": ["opcall_kwfree(node, function_names)"],
         "state": {},
         "closure_in_self": True,
+        "closure_names": ["function_names"],
         "properties": ["C17"],
     })
     C.register(w, {
@@ -49,6 +50,15 @@ def register(w):
                    "call": "change_extension_functions_to_calls(call_node, function_names)"},
         "properties": ["C17"],
     })
+    C.register(w, {
+        "key": f"{F}::change_extension_functions_to_calls",
+        "params": {"a": "py", "function_names": "list"},
+        "requires": ["is_node(a)", "wf(a)", "opcall_kwfree(a, function_names)"],
+        "raises": {},
+        "ensures": ["same(result, erase_method_form(a, function_names))"],
+        "modifies": ["*"],
+        "properties": ["C17"],
+    })
 
 
 def _lemmas(w):
@@ -56,7 +66,9 @@ def _lemmas(w):
     register_lemma(w, {"name": "erase_complete_list", "pred": "lem_erase_complete_list",
                        "induct": "list", "properties": ["C17"]})
     register_lemma(w, {"name": "erase_complete", "pred": "lem_erase_complete", "induct": "node",
-                       "uses": ["erase_complete_list"], "fuel": 4, "properties": ["C17"]})
+                       "uses": ["erase_complete_list"], "fuel": 4, "split": {"Call": ["func"]},
+                       "inline_goal": 2,
+                       "properties": ["C17"]})
     register_lemma(w, {"name": "erase_idem_list", "pred": "lem_erase_idem_list",
                        "induct": "list", "properties": ["C17"]})
     register_lemma(w, {"name": "erase_idem", "pred": "lem_erase_idem", "induct": "node",
